@@ -68,8 +68,9 @@ TGraph == /\ IsEvent("Graph")
 (* version, consistent.  Every command writes only its output.                                      *)
 TSurgery ==
    /\ IsEvent("Surgery")
-   /\ Expect(E.exit = 0 /\ E.srcSame, <<"surgery command failed or changed its source", E.exit>>)
-   /\ Expect(E.out.opened /\ E.out.checkErrs = 0, "output of the surgery command does not open / fails the integrity check")
+   /\ Expect(E.srcSame, "surgery command changed its source file (C20)")
+   /\ Expect(E.kind \in {"inplace", "stale"} \/ E.exit = 0, <<"surgery command failed", E.exit>>)
+   /\ Expect(E.kind \in {"inplace", "stale"} \/ (E.out.opened /\ E.out.checkErrs = 0), "output of the surgery command does not open / fails the integrity check")
    /\ LET g == [E.g EXCEPT !.fl = SeqSet(E.g.fl)] IN
       CASE E.kind = "abandon" ->
              /\ Expect(E.out.content = E.versions[ToString(E.src.txid)], "abandoning the free list changed the content")
@@ -78,6 +79,10 @@ TSurgery ==
         [] E.kind = "rebuild" ->
              /\ Expect(E.out.content = E.versions[ToString(E.src.txid)], "rebuilding the free list changed the content")
              /\ Expect(g.hasfl /\ Consistent(g), "after rebuild the free pages are not exactly the unreachable pages")
+        [] E.kind = "inplace" -> TRUE      \* --output is (a hard link of) the source: only "source byte-identical" above
+        [] E.kind = "stale" ->             \* --output exists: refuse and leave it alone, or produce the source's content
+             Expect((E.exit # 0 /\ E.staleSame) \/ (E.exit = 0 /\ E.out.opened /\ E.out.content = E.versions[ToString(E.expectTxid)]),
+                    "an existing output file was neither left alone nor replaced by the source's content")
         [] E.kind = "revert" ->
              /\ Expect(E.out.txid = E.src.txid - 1, <<"revert-meta-page does not open at the previous transaction", E.src.txid - 1>>)
              /\ Expect(E.out.content = E.versions[ToString(E.src.txid - 1)], "revert-meta-page does not present exactly the previously committed state")
